@@ -313,7 +313,15 @@ func splitFilter(s, sep string) any {
 
 func uniqFilter(a []any) (result []any) {
 	seenMap := map[any]bool{}
+	seenNil := false
 	seen := func(item any) bool {
+		if item == nil {
+			if seenNil {
+				return true
+			}
+			seenNil = true
+			return false
+		}
 		if k := reflect.TypeOf(item).Kind(); k < reflect.Array || k == reflect.Ptr || k == reflect.UnsafePointer {
 			if seenMap[item] {
 				return true
@@ -323,7 +331,7 @@ func uniqFilter(a []any) (result []any) {
 		}
 		// the O(n^2) case:
 		for _, other := range result {
-			if eqItems(item, other) {
+			if other != nil && eqItems(item, other) {
 				return true
 			}
 		}
